@@ -292,11 +292,19 @@ def oracle_c05(lhs, obs, group=None):
     without a trace"""
     ops = kv_of(lhs).get("ops", "").split(";")
     live = {}
+    asked = set()      # tids for which cancel / cancel_retransmissions was called since their (last accepted) send
     prev_snap = None
     for i, (op, (reply, snap)) in enumerate(zip(ops, _ag_split(obs))):
         p = op.split("/")
         head = reply.split(" ")[0]
         snaps = (snap.get("o"), snap.get("p"), snap.get("v"))
+        if p[0] in ("C", "R") and head == "ok":
+            asked.add(int(p[1], 16))
+        if p[0] == "S" and p[2] == "0" and head.startswith("tx:"):
+            asked.discard(int(p[1], 16))
+        if p[0] == "P" and head.startswith("cancelled:") and int(head.split(":")[1], 16) not in asked:
+            return (f"call {i}: transaction {head.split(':')[1]} ended as 'cancelled' although neither cancel nor cancel_retransmissions "
+                    f"was called for it since it was sent (a request handed to the agent must end by its own response, time-out or cancellation)")
         if p[0] == "S" and p[2] == "0":
             tid = int(p[1], 16)
             if live.get(tid):
